@@ -165,6 +165,23 @@ func init() {
 				}
 				c.AddCase(Case{Line: "msg " + strings.Join(ops, " "), Post: post, Nontrivial: len(spc.Parts)+len(spc.Files) > 1,
 					Branch: spc.SMIME + ":" + spc.shape(), Desc: spc})
+				// a render that fails on the way out (the connection drops during DATA), then the retry: the retry
+				// must verify like any other rendering (oracle only)
+				if r.Chance(40) {
+					full := renderOnce(m, -1)
+					if full.err == nil && full.panic == nil && len(full.out) > 0 {
+						failed := renderOnce(m, r.Intn(len(full.out)))
+						if failed.panic != nil {
+							c.Violate("c12-panic", fmt.Sprintf("WriteTo panicked: %v", failed.panic), spc)
+						}
+						retry := renderOnce(m, -1)
+						if retry.err != nil || retry.panic != nil {
+							c.Violate("c08-render", fmt.Sprintf("the render after a failed one failed: %v %v", retry.panic, retry.err), spc)
+						} else {
+							oracleSMIME(c, spc, retry.out, nil, 4)
+						}
+					}
+				}
 				// the message is changed AFTER it has been rendered (preview first, alternative added, then sent):
 				// every later rendering must verify as well (oracle only)
 				if r.Chance(50) && len(spc.Parts) > 0 {
